@@ -16,10 +16,15 @@
 (*   - namespace declarations of the document (variable decl):             *)
 (*       "none"  nothing declared          -> elements Q{}a Q{}b           *)
 (*       "p"     xmlns:p="urn:n" on the root -> + Q{urn:n}a, @Q{urn:n}a    *)
-(*       "dp"    xmlns="urn:d" xmlns:p="urn:n" on the root: every element  *)
-(*               is in urn:d or urn:n (no xmlns="" undeclaration)          *)
-(*     declarations sit on the root element, so EVERY element has the      *)
-(*     in-scope namespace nodes  xml + declared prefixes                   *)
+(*       "dp"    xmlns="urn:d" xmlns:p="urn:n" on the root; the root is in  *)
+(*               urn:d or urn:n, the elements below it may ALSO be in no   *)
+(*               namespace (Q{}a, Q{}b: the in-memory form of xmlns=""),   *)
+(*               next to like-local-named siblings in urn:d                *)
+(*     declarations sit on the root element and both tree libraries report *)
+(*     them as inherited by every element (lxml nsmap; namespaces= for     *)
+(*     xml.etree; an in-memory no-namespace element carries no xmlns=""    *)
+(*     undeclaration), so EVERY element has the namespace nodes            *)
+(*     xml + declared prefixes                                             *)
 (*   - namespace nodes: not numbered in the parent vector; the namespace   *)
 (*     node of element e for the prefix with index j is the id 100*e + j   *)
 (*   - document-level comments / PIs before and after the root element     *)
@@ -69,7 +74,8 @@ NsIdx(pfx) == CASE pfx = "xml" -> 1 [] pfx = "" -> 2 [] pfx = "p" -> 3
 PfxOfIdx(j) == CASE j = 1 -> "xml" [] j = 2 -> "" [] j = 3 -> "p"
 AllowedElem(d) == CASE d = "none" -> {"a0", "b0"}
                     [] d = "p"    -> {"a0", "b0", "an"}
-                    [] d = "dp"   -> {"ad", "bd", "an"}
+                    [] d = "dp"   -> ElemK
+RootAllowed(d) == IF d = "dp" THEN {"ad", "bd", "an"} ELSE AllowedElem(d)   \* xmlns="urn:d" on a Q{}name is not XML
 AllowedAttr(d) == IF d = "none" THEN {"xa0"} ELSE {"xa0", "xan"}
 
 ---------------------------------------------------------------------------
@@ -91,7 +97,7 @@ ValidKindsX(p, k, d) ==
        THEN N = 1 /\ k[1] \in PIK \cup {"c"}
        ELSE /\ Cardinality({i \in Top : k[i] \in ElemK}) = 1        \* one root element
             /\ \A i \in Top : k[i] \in ElemK \cup PIK \cup {"c"}   \* document children
-  /\ \A i \in 1..N : k[i] \in ElemK => k[i] \in AllowedElem(d)
+  /\ \A i \in 1..N : k[i] \in ElemK => k[i] \in (IF p[i] = 0 THEN RootAllowed(d) ELSE AllowedElem(d))
   /\ \A i \in 1..N : k[i] \in AttrK => k[i] \in AllowedAttr(d)
   /\ \A i \in 2..N : p[i] # 0 => k[p[i]] \in ElemK                 \* only elements have children
   /\ \A i \in 1..N : k[i] \in AttrK =>                             \* attributes directly follow the element
